@@ -29,7 +29,7 @@ OUT_OF_SCOPE = {"xgi.drawing.draw:draw_directed_dyads": "not among the functions
 def run(ctx):
     repo = ctx.repo
     res = Result(PROP)
-    res.rules = ["K1", "K2", "K5", "L-KEYS", "L-ORDER", "L-RANGE", "L-CUT", "L-FACEID", "L-FLOW", "L-POLY", "L-FWD"]
+    res.rules = ["K1", "K2", "K5", "L-KEYS", "L-ORDER", "L-RANGE", "L-CUT", "L-FACEID", "L-FLOW", "L-POLY", "L-FWD", "L-IDX"]
     res.explanation = (
         "Narrow claim: kind inference (labels vs positions) over the layout and drawing modules, key provenance of the "
         "dict every layout returns, and agreement of the permutation applied to per-edge style arrays and patches. "
@@ -67,6 +67,10 @@ def run(ctx):
                  "def _dyads(simplices):\n    return dict.fromkeys(subfaces(simplices, order=1))\n",
                  lambda nd: f"`{unparse(nd, 60)}` de-duplicates faces by the tuples a combinations-style enumeration yields; a two-node face shared by two simplices can come out as (a, b) from one and (b, a) from the other, survives twice and is drawn as two lines (one line per two-node simplex is lost)",
                  "raw combination tuples used as identities")
+    from .common import ORDER_POSITIVE, describe_order_mismatch, order_mismatch_nodes
+
+    pattern_lint(res, PROP, "L-IDX", fns, order_mismatch_nodes, ORDER_POSITIVE, describe_order_mismatch,
+                 "position maps numbering one sequence applied to a sequence listing another")
     return res
 
 
